@@ -394,11 +394,33 @@ func errResultIndex(fn *ssa.Function) int {
 func returnsOf(fn *ssa.Function) []*ssa.Return {
 	var out []*ssa.Return
 	for _, b := range fn.Blocks {
+		if b == fn.Recover {
+			continue // the synthetic recover block of functions with defer: not a normal return
+		}
 		if rt, ok := terminator(b).(*ssa.Return); ok {
 			out = append(out, rt)
 		}
 	}
 	return out
+}
+
+// pureBlock: the block contains no call, send or store to non-local memory.
+func pureBlock(b *ssa.BasicBlock) bool {
+	for _, ins := range b.Instrs {
+		switch x := ins.(type) {
+		case ssa.CallInstruction:
+			if _, isB := x.Common().Value.(*ssa.Builtin); !isB {
+				return false
+			}
+		case *ssa.Store:
+			if _, isAlloc := rootValue(x.Addr).(*ssa.Alloc); !isAlloc {
+				return false
+			}
+		case *ssa.Send, *ssa.MapUpdate:
+			return false
+		}
+	}
+	return true
 }
 
 // methodOf finds the source method named name on the named type (pointer or value receiver).
